@@ -80,6 +80,26 @@ def show_pts2(T):
     return "|".join(show_pts(p) for p in T) if len(T) else "-"
 
 
+def impl_sqrt(exact_radicand, compute):
+    """The double the IMPLEMENTATION obtains for a square root (`compute()` calls the real routine, e.g.
+    linalg.vector_magnitude / point_distance, in exact mode and returns the double as an exact number).  math.sqrt of
+    the summed squares, math.hypot, x ** 0.5 or a compensated sum may differ in the last digit: the model is fed with
+    what the implementation really used.  It must be the square root up to rounding (relative 2^-50), otherwise the
+    correctly rounded textbook value is returned and the difference shows up as a disagreement."""
+    import math
+    ref = F(math.sqrt(float(exact_radicand)))
+    try:
+        got = compute()
+        got = got.q if hasattr(got, 'q') else F(got)
+    except Exception:
+        return ref
+    if exact_radicand == 0:
+        return got if got == 0 else ref
+    if got > 0 and abs(got * got - exact_radicand) <= exact_radicand * F(1, 2 ** 49):
+        return got
+    return ref
+
+
 class Case(object):
     """one operation: `line` goes to the Lean driver verbatim, `data` lets impl()/oracle() rebuild
     the same input for the real code, `kind` is the op class used in the statistics"""
